@@ -41,6 +41,8 @@ PROPS = {
             "Replicon.C01.C01_stable_client",
             "Replicon.C01.C01_joiner_converges",
             "Replicon.C01.C01_joiner_values",
+            "Replicon.C01.C01_known_finding_F4_witness",
+            "Replicon.C01.C01_known_finding_F4_server_value",
         ],
         "profiles": [{"name": "sys", "shards": {"thorough": 8}}, {"name": "sys_vis", "shards": {"thorough": 4}}, {"name": "sys_split", "shards": {"thorough": 4}}],
         "rule": SYS_RULE + LOCK + "For C01: oracle on the implementation: after the quiescent suffix (PERIOD+4 ticks, full in-order delivery) every authorized client's view equals the server's (same visible replicated entities, components, values; `once` components by structure); a panic of either app anywhere in the trace is a violation.",
@@ -57,6 +59,7 @@ PROPS = {
             "Replicon.C02.C02_monotone",
             "Replicon.C02.C02_record_complete",
             "Replicon.C02.C02_ack_on_apply",
+            "Replicon.C02.C02_known_finding_F20_witness",
         ],
         "profiles": [{"name": "sys", "shards": {"thorough": 8}}, {"name": "sys_split", "shards": {"thorough": 4}}],
         "rule": SYS_RULE + LOCK + "For C02: oracle on the implementation after every client frame: for every mapped client entity with ConfirmHistory.last_tick = t the values of its every-tick components equal the server snapshot of tick t restricted to that client's view (snapshots are recorded at every replication run).",
@@ -235,6 +238,7 @@ PROPS = {
             "Replicon.C16.C16_gone_ignored",
             "Replicon.C16.C16_fresh_if_gone",
             "Replicon.C16.C16_others_unaffected",
+            "Replicon.C16.C16_known_finding_F21_witness",
         ],
         "profiles": [{"name": "sys", "shards": {"thorough": 8}}, {"name": "sys_split", "shards": {"thorough": 4}}],
         "rule": SYS_RULE + LOCK + "For C16: histories with client-side pre-spawned entities, mappings registered in the spawn's tick window, optional client-side despawn before arrival, extra traffic; oracle after quiescence: a replicated entity with a registered mapping to a live pre-spawned entity lands on that entity.",
@@ -251,6 +255,7 @@ PROPS = {
             "Replicon.C10.C10_atomic",
             "Replicon.C10.C10_size_bound",
             "Replicon.C10.C10_single",
+            "Replicon.C10.C10_known_finding_F22_witness",
         ],
         "const_obligations": ["shape of can_pack and of the split condition in Mutations::send (anchored source patterns)"],
         "profiles": [{"name": "sys_split", "shards": {"thorough": 8}}, {"name": "sys", "shards": {"thorough": 4}}],
@@ -273,6 +278,7 @@ PROPS = {
             "Replicon.C08.C08_query",
             "Replicon.C08.C08_run_decision",
             "Replicon.C08.C08_despawn",
+            "Replicon.C08.C08_known_finding_F14_witness",
             "Replicon.Vis.step_preserves",
         ],
         "profiles": [{"name": "sys_vis", "shards": {"thorough": 8}}, {"name": "sys", "shards": {"thorough": 8}}],
